@@ -190,6 +190,12 @@ class CRef:
             elif k == "if":
                 c = self.ev(s[1], env)
                 self.run(s[2] if c[1] != 0 else s[3], env)
+            elif k == "for":
+                # for (i = 0; i < n; i++) { body }  with the dialect's iterator variable (uint32_t)
+                env[s[1]] = (("u", 32), 0)
+                while env[s[1]][1] < s[2]:
+                    self.run(s[3], env)
+                    env[s[1]] = (("u", 32), wrap(env[s[1]][1] + 1, ("u", 32)))
             elif k == "return":
                 raise Return(self.ev(s[1], env))
             elif k == "expr":
@@ -252,6 +258,8 @@ def show_stmts(stmts) -> str:
             if s[3]:
                 t += " else { " + show_stmts(s[3]) + " }"
             out.append(t)
+        elif k == "for":
+            out.append(f"for ({s[1]} = 0; {s[1]} < {s[2]}; {s[1]}++) {{ " + show_stmts(s[3]) + " }")
         elif k == "return":
             out.append(f"return {show_expr(s[1])};")
         elif k == "expr":
